@@ -302,9 +302,9 @@ theorem mem_written_iff (s : Sys) (f : File) :
   simp [written, pageFiles]
 
 theorem mem_summaryFiles_cases {s : Sys} {f : File} (h : f ∈ summaryFiles s) :
-    (∃ x, f = .summary x) ∨ (f = .index ∧ 1 < (rootNames s).length) := by
+    (∃ x, f = .summary x) ∨ (f = .index ∧ hasIndexPage s = true) := by
   unfold summaryFiles at h
-  by_cases hl : (rootNames s).length > 1
+  by_cases hl : hasIndexPage s = true
   · simp only [hl, if_true, List.mem_append, List.mem_cons, List.not_mem_nil, or_false] at h
     rcases h with ((h | h | h | h) | h) | h
     · exact .inl ⟨_, h⟩
@@ -313,39 +313,34 @@ theorem mem_summaryFiles_cases {s : Sys} {f : File} (h : f ∈ summaryFiles s) :
     · exact .inl ⟨_, h⟩
     · exact .inr ⟨h, hl⟩
     · exact .inl ⟨_, h⟩
-  · simp only [hl, if_false, List.append_nil, List.mem_append, List.mem_cons, List.not_mem_nil, or_false] at h
-    rcases h with (h | h | h | h) | h
-    · exact .inl ⟨_, h⟩
-    · exact .inl ⟨_, h⟩
-    · exact .inl ⟨_, h⟩
-    · exact .inl ⟨_, h⟩
-    · exact .inl ⟨_, h⟩
+  · simp [hl] at h
+    rcases h with h | h | h | h | h <;> exact .inl ⟨_, h⟩
 
-/-- a page file is among the written files only as the page of that very object -/
-theorem pageFile_written {s : Sys} (w : WF s) {i : Nat} (hi : i < s.n) (h : pageFile s i ∈ written s) : i ∈ pages s := by
+/-- a page file is among the written files only as the page of that very object — or it is index.html,
+written as the project's `IndexPage` (several roots; since a09aa28 also when the only root is hidden) -/
+theorem pageFile_written {s : Sys} (w : WF s) {i : Nat} (hi : i < s.n) (h : pageFile s i ∈ written s) :
+    i ∈ pages s ∨ (pageFile s i = .index ∧ hasIndexPage s = true) := by
   rcases (mem_written_iff s _).mp h with h | ⟨p, hp, he⟩ | h
-  · -- summary files: only `.index` could coincide, and only with several roots
-    rcases mem_summaryFiles_cases h with ⟨x, hx⟩ | ⟨hx, hl⟩
+  · rcases mem_summaryFiles_cases h with ⟨x, hx⟩ | ⟨hx, hl⟩
     · exact absurd hx (pageFile_ne_summary s i x)
-    · unfold pageFile at hx
-      split at hx
-      · rename_i hr; rw [hr] at hl; simp at hl
-      · cases hx
+    · exact .inr ⟨hx, hl⟩
   · have hpn : p < s.n := visible_lt (visible_of_mem_pages hp)
     have := pageFile_inj w hpn hi he
-    exact this ▸ hp
+    exact .inl (this ▸ hp)
   · unfold aliasFiles at h
     split at h
     · rename_i r hr
       split at h
-      · simp only [List.mem_singleton] at h
-        unfold pageFile at h
-        split at h
-        · cases h
-        · rename_i hne
-          injection h with h
-          exact absurd (by rw [hr, h]) hne
       · simp at h
+      · split at h
+        · simp only [List.mem_singleton] at h
+          unfold pageFile at h
+          split at h
+          · cases h
+          · rename_i hne
+            injection h with h
+            exact absurd (by rw [hr, h]) hne
+        · simp at h
     · simp at h
 
 theorem mem_anchorsOf_page {s : Sys} (w : WF s) {p : Nat} (hp : p < s.n) (a : Name) :
@@ -412,9 +407,14 @@ theorem fullName_of_parent {s : Sys} {i p : Nat} (hp : (s.ob i).parent = some p)
   simp [hp]
 
 /-- **C11** `url o` leads to a written file (and anchor) **iff** `o` is visible and reached through
-`contents` from a root — in particular not for a superseded duplicate `'x 0'`, nor for anything inside one -/
+`contents` from a root — in particular not for a superseded duplicate `'x 0'`, nor for anything inside one.
+One address is shared: with a single root, index.html is the root's page; when that root is hidden the
+project's `IndexPage` is written there instead (a09aa28), so the address of the hidden root leads to a
+file that is not its page (`pages` does not contain it). -/
 theorem url_resolves_iff {s : Sys} (w : WF s) {i : Nat} (hi : i < s.n) :
-    urlResolves s i = true ↔ visible s i = true ∧ reachable s i := by
+    urlResolves s i = true ↔
+      (visible s i = true ∧ reachable s i) ∨
+        ((s.ob i).kind.ownPage = true ∧ pageFile s i = .index ∧ hasIndexPage s = true) := by
   constructor
   · intro h
     cases ho : (s.ob i).kind.ownPage with
@@ -423,10 +423,12 @@ theorem url_resolves_iff {s : Sys} (w : WF s) {i : Nat} (hi : i < s.n) :
       rw [url_own ho] at h
       simp only at h
       rw [resolvesHref_full] at h
-      have hp := pageFile_written w hi h.1
-      have := (mem_pages_iff w i).mp hp
-      exact ⟨this.2.1, this.1⟩
+      rcases pageFile_written w hi h.1 with hp | hx
+      · have := (mem_pages_iff w i).mp hp
+        exact .inl ⟨this.2.1, this.1⟩
+      · exact .inr ⟨rfl, hx⟩
     | false =>
+      left
       cases hp : (s.ob i).parent with
       | none =>
         have := Kind.ownPage_of_isModule (w.orphan_module i hi hp)
@@ -437,8 +439,7 @@ theorem url_resolves_iff {s : Sys} (w : WF s) {i : Nat} (hi : i < s.n) :
         rw [url_member w hi ho hp] at h
         simp only at h
         rw [resolvesHref_full] at h
-        have hpp := pageFile_written w hpn h.1
-        obtain ⟨_, c, hc, ha⟩ := (mem_anchorsOf_page w hpn _).mp (h.2 _ rfl)
+        obtain ⟨hpp, c, hc, ha⟩ := (mem_anchorsOf_page w hpn _).mp (h.2 _ rfl)
         obtain ⟨hcc, hco, hcv⟩ := mem_methods.mp hc
         have hcp := w.contents_parent p c hcc
         have hcn := w.contents_lt p c hcc
@@ -448,10 +449,19 @@ theorem url_resolves_iff {s : Sys} (w : WF s) {i : Nat} (hi : i < s.n) :
           subst this
           exact ⟨hcv, reachable_child ((mem_pages_iff w p).mp hpp).1 hcc⟩
         · exact absurd ha (w.spellings i c hi hcn (by rw [hcp]; simp))
-  · rintro ⟨hv, hr⟩
-    cases ho : (s.ob i).kind.ownPage with
-    | true => exact own_page_exists w hr hv ho
-    | false => exact member_anchor_exists w hr hv ho
+  · rintro (⟨hv, hr⟩ | ⟨ho, hx, hl⟩)
+    · cases ho : (s.ob i).kind.ownPage with
+      | true => exact own_page_exists w hr hv ho
+      | false => exact member_anchor_exists w hr hv ho
+    · unfold urlResolves
+      rw [url_own ho]
+      simp only
+      rw [resolvesHref_full]
+      refine ⟨?_, fun a h => by cases h⟩
+      rw [hx]
+      refine (mem_written_iff s _).mpr (.inl ?_)
+      unfold summaryFiles
+      simp [hl]
 
 /-! ### where every emitted mention comes from (one pass over the producer table) -/
 
@@ -496,8 +506,7 @@ def Origin (s : Sys) (e : Emit) : Prop :=
   | .annXref =>
       ∃ o op, Shown s e.page o ∧ e.target ∈ (s.ob o).annrefs ∧ pageObject s o = some op ∧ e.ctx = some (pageFile s op)
   | .valXref =>
-      ∃ o, Shown s e.page o ∧ e.target ∈ (s.ob o).valrefs ∧
-        (e.ctx = none ∨ ∃ c, (s.ob o).ownCtx = some c ∧ e.ctx = some (pageFile s c))
+      ∃ o op, Shown s e.page o ∧ e.target ∈ (s.ob o).valrefs ∧ pageObject s o = some op ∧ e.ctx = some (pageFile s op)
   | .extraInfo => e.ctx = some e.page ∧ ∃ p, p ∈ pages s ∧ e.target ∈ (s.ob p).ctors
   | .sumCopy | .classIndexSum | .allDocsSum =>
       e.ctx = none ∧ ∃ o, visible s o = true ∧ e.target ∈ (s.ob o).xrefs
@@ -542,14 +551,13 @@ theorem mem_annLinks {s : Sys} {pg : File} {o : Nat} {e : Emit} (h : e ∈ annLi
 
 theorem mem_valLinks {s : Sys} {pg : File} {o : Nat} {e : Emit} (h : e ∈ valLinks s pg o) :
     e.row = .valXref ∧ e.page = pg ∧ e.target ∈ (s.ob o).valrefs ∧
-      (e.ctx = none ∨ ∃ c, (s.ob o).ownCtx = some c ∧ e.ctx = some (pageFile s c)) := by
+      ∃ op, pageObject s o = some op ∧ e.ctx = some (pageFile s op) := by
   unfold valLinks at h
   split at h
-  · obtain ⟨t, ht, rfl⟩ := List.mem_map.mp h
-    exact ⟨rfl, rfl, ht, .inl rfl⟩
-  · rename_i c hc
+  · simp at h
+  · rename_i op hop
     obtain ⟨t, ht, rfl⟩ := List.mem_map.mp h
-    exact ⟨rfl, rfl, ht, .inr ⟨c, hc, rfl⟩⟩
+    exact ⟨rfl, rfl, ht, op, hop, rfl⟩
 
 theorem mem_assemble {s : Sys} {l : List Nat} {i : Nat} (h : i ∈ assemble s l) : visible s i = true := by
   unfold assemble at h
@@ -818,9 +826,9 @@ theorem origin_ann {s : Sys} {p o : Nat} {e : Emit} (hp : p ∈ pages s) (ho : o
 
 theorem origin_val {s : Sys} {p o : Nat} {e : Emit} (hp : p ∈ pages s) (ho : o = p ∨ o ∈ methods s p)
     (h : e ∈ valLinks s (pageFile s p) o) : Origin s e := by
-  obtain ⟨h1, h2, h3, h4⟩ := mem_valLinks h
+  obtain ⟨h1, h2, h3, op, h4, h5⟩ := mem_valLinks h
   simp only [Origin, h1]
-  exact ⟨o, ⟨p, hp, h2, ho⟩, h3, h4⟩
+  exact ⟨o, op, ⟨p, hp, h2, ho⟩, h3, h4, h5⟩
 
 theorem mem_unmaskedAttrs {s : Sys} {bl : List Nat} {a : Nat} (h : a ∈ unmaskedAttrs s bl) :
     visible s a = true ∧ ∃ b0 rest, bl = b0 :: rest ∧ a ∈ (s.ob b0).contents := by
@@ -1117,10 +1125,15 @@ theorem superseded_invisible {s : Sys} (w : WF s) {a i : Nat} (h : superseded s 
   | true => exact absurd (reachable_of_visible w hv) (inside_superseded_not_reachable w h hd)
 
 /-- **C11** `url o` leads to a written file (and anchor) exactly for the visible objects -/
-theorem url_resolves_iff_visible {s : Sys} (w : WF s) {i : Nat} (hi : i < s.n) :
+theorem url_resolves_iff_visible {s : Sys} (w : WF s) {i : Nat} (hi : i < s.n)
+    (hx : ¬ (pageFile s i = .index ∧ hasIndexPage s = true)) :
     urlResolves s i = true ↔ visible s i = true := by
   rw [url_resolves_iff w hi]
-  exact ⟨fun h => h.1, fun h => ⟨h, reachable_of_visible w h⟩⟩
+  constructor
+  · rintro (h | ⟨_, h⟩)
+    · exact h.1
+    · exact absurd h hx
+  · exact fun h => .inl ⟨h, reachable_of_visible w h⟩
 
 /-- under `WF`, `parentMod` is one of the object's containers (or the object), and a module -/
 theorem module_in_chain {s : Sys} (w : WF s) {p m : Nat} (hp : p < s.n) (h : (s.ob p).modul = some m) :
@@ -1160,7 +1173,7 @@ def ctxOk (s : Sys) (e : Emit) : Prop :=
 theorem resolves_of_visible {s : Sys} (w : WF s) (e : Emit) (hv : visible s e.target = true)
     (hc : ctxOk s e) : resolves s e = true := by
   have hi := visible_lt hv
-  have hu := (url_resolves_iff_visible w hi).mpr hv
+  have hu := (url_resolves_iff w hi).mpr (.inl ⟨hv, reachable_of_visible w hv⟩)
   unfold resolves resolvesIn href
   unfold urlResolves at hu
   cases hurl : url s e.target with
@@ -1195,13 +1208,14 @@ theorem shown_page {s : Sys} (w : WF s) {pg : File} {o op : Nat} (h : Shown s pg
 /-- every `taglink` call is made with the address of the page the link is written into (or none), or for
 a target that has its own page (since 1da744b also for docstrings that are inherited or whose object was
 re-exported) -/
-theorem ctx_ok {s : Sys} (w : WF s) {e : Emit} (h : e ∈ requests s) (hl : e.row.isLink = true)
-    (hval : e.row ≠ .valXref) : ctxOk s e := by
+theorem ctx_ok {s : Sys} (w : WF s) {e : Emit} (h : e ∈ requests s) (hl : e.row.isLink = true) : ctxOk s e := by
   have ho := origin h
   cases hrow : e.row <;> simp only [Origin, hrow] at ho <;>
     (first | exact .inr (.inl ho.1) | exact .inl ho.1 | skip)
   case detail => rw [hrow] at hl; cases hl
-  case valXref => exact absurd hrow hval
+  case valXref =>
+    obtain ⟨o, op, hs, _, hpo, hc⟩ := ho
+    exact .inr (.inl (by rw [hc, shown_page w hs hpo]))
   case sidebarTitle =>
     obtain ⟨_, p, hp, _, ht⟩ := ho
     have hpp := (mem_pages_iff w p).mp hp
@@ -1235,45 +1249,15 @@ theorem mem_emits {s : Sys} {e : Emit} (h : e ∈ emits s) :
       exact .inr ⟨rfl, by simpa using hv, r, hr, hrow, rfl, rfl, rfl⟩
     · cases hg
 
-/-- **C11, every producer row but one, full strength.** Every hyperlink the run emits leads to a file
-that was written and, if it has a fragment, to an anchor of that file — except possibly the links of default
-values, decorators and constant values (`valXref`), see `links_resolve_partial`.
-(Before cb98646 / aaed9bd / 1da744b this was false in three more ways: see the `…_old` counterexamples.) -/
-theorem links_resolve {s : Sys} (w : WF s) {e : Emit} (h : e ∈ emits s) (hval : e.row ≠ .valXref) :
-    resolves s e = true := by
+/-- **C11, every producer row (29), full strength.** Every hyperlink the run emits leads to a file that
+was written and, if it has a fragment, to an anchor of that file.
+(Before cb98646 / aaed9bd / 1da744b / f972163 this was false in four ways: see the `…_old` counterexamples.) -/
+theorem links_resolve {s : Sys} (w : WF s) {e : Emit} (h : e ∈ emits s) : resolves s e = true := by
   rcases mem_emits h with ⟨hr, hv⟩ | ⟨hl, _⟩
   · cases hlink : e.row.isLink with
     | false => simp [resolves, resolvesIn, hlink]
-    | true => exact resolves_of_visible w e hv (ctx_ok w hr hlink hval)
+    | true => exact resolves_of_visible w e hv (ctx_ok w hr hlink)
   · simp [resolves, resolvesIn, hl]
-
-/-- **C11, all rows, under an explicit hypothesis.** The full statement
--- theorem links_resolve_all (w : WF s) : ∀ e ∈ emits s, resolves s e = true
-is FALSE of the current code (`links_resolve_counterexample_value`, known finding): a default value, decorator
-or constant value is linked through the object's own `docstring_linker`, which is created while the module
-is visited and keeps the page of the module the object was *defined* in; after a re-export the link is
-shortened for that page and written into another. It holds for every link whose shortening context is the
-page it is written into. -/
-theorem links_resolve_partial {s : Sys} (w : WF s) {e : Emit} (h : e ∈ emits s) (hc : ctxOk s e) :
-    resolves s e = true := by
-  rcases mem_emits h with ⟨_, hv⟩ | ⟨hl, _⟩
-  · exact resolves_of_visible w e hv hc
-  · simp [resolves, resolvesIn, hl]
-
-/-- for `valXref` the hypothesis is: the object's linker remembers the page the object is shown on -/
-theorem valXref_ctxOk {s : Sys} (w : WF s) {e : Emit} (h : e ∈ requests s) (hrow : e.row = .valXref)
-    (hfresh : ∀ o, o < s.n → (s.ob o).ownCtx = pageObject s o) : ctxOk s e := by
-  have ho := origin h
-  simp only [Origin, hrow] at ho
-  obtain ⟨o, hs, _, hc⟩ := ho
-  rcases hc with hc | ⟨c, hoc, hc⟩
-  · exact .inl hc
-  · have hon : o < s.n := by
-      obtain ⟨p, hp, _, ho' | ho'⟩ := hs
-      · exact ho' ▸ visible_lt (visible_of_mem_pages hp)
-      · exact visible_lt (mem_methods.mp ho').2.2
-    rw [hfresh o hon] at hoc
-    exact .inr (.inl (by rw [hc, shown_page w hs hoc]))
 
 /-! ### historical counterexamples: how the statement failed before the fixes -/
 
@@ -1351,13 +1335,29 @@ def sValue : Sys :=
               { mkObj ['f'] .function (some 0) .pub [] with modul := some 0, valrefs := [2], ownCtx := some 1 } ],
     all := [0, 1, 2, 3], roots := [0], depth := 1, nosidebar := false }
 
-/-- current code: the default value of the re-exported `pk.f` links `pk._i.D` as `#D` on index.html,
-where no such anchor exists; the target itself is visible and its address resolves. -/
-theorem links_resolve_counterexample_value :
+/-- before f972163: the default value of the re-exported `pk.f` linked `pk._i.D` as `#D` on index.html,
+where no such anchor exists (the linker kept the page of `pk._i`); the target itself is visible and its
+address resolves. Now the linker's page is refreshed by `reparent`. -/
+theorem links_resolve_counterexample_value_old :
     wf sValue = true ∧ visible sValue 2 = true ∧ urlResolves sValue 2 = true ∧
-    ((emits sValue).any fun e =>
-        e.row == .valXref && e.target == 2 && e.page == .index && e.ctx == some (.page ['p', 'k', '.', '_', 'i'])
-          && !resolves sValue e) = true := by
+    ((valLinksOld sValue .index 3).any fun e =>
+        e.target == 2 && e.ctx == some (.page ['p', 'k', '.', '_', 'i']) && !resolves sValue e) = true ∧
+    -- fixed code
+    (emits sValue).all (resolves sValue) = true ∧
+    ((emits sValue).any fun e => e.row == .valXref && e.target == 2 && e.ctx == some .index) = true := by
+  decide
+
+/-- `solo` is the only root and HIDDEN: before a09aa28 no index.html was written although every summary page
+links to it; now the project's `IndexPage` is. The address of the hidden root (index.html) leads to that page,
+which is not a page *for* it. -/
+def sSoloHidden : Sys :=
+  { objs := #[ mkObj ['s'] .module none .hidden [1], mkObj ['A'] .cls (some 0) .pub [] ],
+    all := [0, 1], roots := [0], depth := 1, nosidebar := false }
+
+theorem index_page_counterexample_old :
+    wf sSoloHidden = true ∧ hasIndexPageOld sSoloHidden = false ∧ (pageFiles sSoloHidden).contains .index = false ∧
+    -- fixed code
+    (written sSoloHidden).contains .index = true ∧ pages sSoloHidden = [] ∧ urlResolves sSoloHidden 0 = true := by
   decide
 
 /-- `class C` twice, `class D(C)` in between: D's base is the superseded `'C 0'`. -/
